@@ -23,6 +23,12 @@ BUILT = {
    text="1.7M (quick) / 45M (thorough) generated tables of 1-23 players on category-targeted boards with mirrored and rank-sharing hole cards (two-way, multi-way and everybody-ties patterns each a measured share of cases), plus injected board collisions; winners must be exactly the players whose reference class (best of 21) is the table minimum, winner_len the flagged count, players/cards/probability as given.",
    note="Trusted: the reference classifier of C01. Hole cards colliding with each other are outside the statement and not generated.",
    ref="DESIGN.md section 4 (C03)"),
+ "C04": dict(
+   technique="exhaustive enumeration of all (from,to) windows for fixed configurations + proptest model-based histories (scope calls, chains) against the unscoped run",
+   category="exploration",
+   text="For 2 (quick) / 6 (thorough) fixed configurations every one of the 693,253 ordered windows from <= to over the 1177 positions is generated and the scoped run compared, position by position, with the unscoped run's window, with three further next() calls after exhaustion. Generated histories over small random configurations add repeated scope() calls (last wins), windows biased to row edges/terminal/empty, and chains of 0-63 cuts whose concatenation must equal the full run.",
+   note="Trusted: the unscoped run of the same build as reference (C02 decides that it is the right enumeration); 64-bit showdown fingerprints. Only valid positions with from <= to are generated.",
+   ref="DESIGN.md section 4 (C04)"),
  "C07": dict(
    technique="exhaustive enumerating generator over all C(52,7) sets + directed category-boundary cases, oracle = category of the reference best-of-21 class",
    category="exploration",
@@ -35,6 +41,12 @@ BUILT = {
    text="Generated configurations aimed at the failure modes the statement names (longest blocked runs inside a window, sizes 0/1/255/256/257/511/512/513/1326, empty ranges at any seat, all-blocked ranges, full drains) are drained in a child process on a 2 MiB thread, once in a release and once in a debug-profile build of espada; any panic, signal (stack overflow), over-production, or output with an empty range is a violation.",
    note="Trusted: the OS reporting the child's death; an infinite silent loop can only hit the watchdog (exit 2). Debug profile = espada at opt-level 0 with overflow checks and debug assertions, dependencies optimised.",
    ref="DESIGN.md section 4 (C08)"),
+ "C11": dict(
+   technique="proptest metamorphic testing (suit relabelling, player permutation) over integer win/tie tallies",
+   category="exploration",
+   text="Generated suit-asymmetric configurations (flush-prone flops, single-suit ranges, pools, a mirrored player for ties, >255-combo ranges beside narrow ones) are evaluated three times: as given, with one of the 23 non-identity suit permutations applied to flop and ranges, and with the players permuted; integer tallies wins[player][k-way] must be equal resp. permuted, and in every showdown flagged winners == winner_len >= 1. Thorough adds all 24 relabellings for a sample.",
+   note="Trusted: nothing beyond the relation itself (no reference evaluator is involved); category lookup for the non-triviality rule uses the harness's class table.",
+   ref="DESIGN.md section 4 (C11)"),
  "C13": dict(
    technique="exhaustive enumerating generator + model oracle (round trips, order/numbering model)",
    category="exploration",
@@ -47,6 +59,12 @@ BUILT = {
    text="All 52x51 ordered pairs of distinct cards are generated; equality, hashes under two hashers, canonical element order, text round trip in both card orders and single-entry ranges are checked for each. The domain is finite and fully covered.",
    note="Trusted: model card order (rank ace..deuce, then s,h,d,c); std hashers.",
    ref="DESIGN.md section 4 (C14)"),
+ "C15": dict(
+   technique="proptest model-based interleaving histories on one thread + sampled thread schedules and iterator hand-over in an isolated binary with compile-time Send/Sync assertions",
+   category="exploration",
+   text="Generated schedules of next() calls over 1-6 live evaluators (identical ones, same inputs with different scopes, bursts, finish-then-resume) must give every evaluator exactly the sequence it gives alone; this is deterministic, shrinks and replays. Thread rounds (1-19 evaluators behind a barrier, moved evaluators, Arc-shared ranges, showdowns sent through channels, iterators handed over mid-run) sample OS schedules. Send+Sync for the public types is asserted at compile time in the isolated binary; a compile failure there is reported as a violation.",
+   note="OS schedules are sampled, not controlled (the crate has no synchronisation to instrument). Sequence equality relies on deterministic HashMap iteration for identically constructed ranges (FxHash, no random state).",
+   ref="DESIGN.md section 4 (C15)"),
 }
 ALL = ["C%02d" % i for i in range(1, 18)]
 
